@@ -47,6 +47,7 @@ var (
 	nestOnce   sync.Once
 	nestLogger *slog.Entry
 	nestCalls  int
+	nestMu     sync.Mutex // values may be formatted by several goroutines at once; the private logger is reconfigured per call
 )
 
 // NestedLog emits one record through a private logger whose destination discards it; the format rotates.
@@ -55,6 +56,8 @@ func NestedLog(why string) {
 		nestLogger = slog.New("nested-in-value").Root()
 		nestLogger.SetWriter(io.Discard).SetErrorWriter(io.Discard).SetLevel(slog.AlwaysLevel)
 	})
+	nestMu.Lock()
+	defer nestMu.Unlock()
 	nestCalls++
 	switch nestCalls % 3 {
 	case 0:
